@@ -52,7 +52,7 @@ package badger
 //@   props C06
 //@   trusted
 //@   requires rm != nil
-//@   modifies GSavedMeta
+//@   modifies anyOf(GSavedMeta)
 //@   ensures err == nil ==> GSavedMeta == rm
 //@   note trusted: writes the CBOR encoding of the metadata under the version's key into the given transaction; the ghost variable only remembers which metadata object was written last
 
